@@ -142,6 +142,22 @@ class World:
                     limits[(ms['name'], p['name'])] = list(modgen.type_limits(p['spec']))
         history = []
         for step in range(rng.randint(10, 40)):
+            if rng.random() < 0.1:
+                # history: a read of a writable parameter fails in the driver - the parameter is in error state (the cached
+                # value stays) when the next changes arrive; partial structs are still merged into the cached value
+                cands = [(ms, p) for ms in mspecs if ms['export'] for p in ms['params'] if p['has_read'] and modgen.wire_name(p)
+                         and p['constant'] is None]
+                structs = [c for c in cands if c[1]['spec']['type'] == 'struct' and not c[1]['readonly']]
+                if cands:
+                    ms_, p_ = rng.choice(structs or cands)
+                    from frappy.errors import HardwareError
+                    self.hw[('__fail__', ms_['name'], p_['name'], 'read')] = HardwareError('injected read fault')
+                    line = f'read {ms_["name"]}:{modgen.wire_name(p_)}'
+                    history.append(line + '    (the driver fails)')
+                    reply, raw = self.send(line.encode('utf-8'))
+                    self.hw.pop(('__fail__', ms_['name'], p_['name'], 'read'), None)
+                    if reply is not None and reply[0].startswith('error_'):
+                        r.count('failed_reads_before_changes')
             req = self.gen_request(mspecs, limits)
             history.append(req['line'])
             case = {'mspecs': mspecs, 'history': history[-12:], 'request': req['line'], 'class': req['klass']}
@@ -709,6 +725,14 @@ def replay(case):
         r.violation('C04/node-build-fails', f'{type(e).__name__}: {e}'[:300], {'mspecs': case['mspecs']})
         return r.result()
     for line in case.get('history', []):
+        if line.endswith('    (the driver fails)'):
+            from frappy.errors import HardwareError
+            line = line[:-len('    (the driver fails)')]
+            mod, par = line.split()[1].split(':')
+            for ms in case['mspecs']:
+                for p_ in ms['params']:
+                    if ms['name'] == mod and modgen.wire_name(p_) == par:
+                        w.hw[('__fail__', mod, p_['name'], 'read')] = HardwareError('injected read fault')
         reply, raw = w.send(line.encode('utf-8'))
     r.note('replay re-sends the recorded history; the verdict is recomputed only by a full run')
     r.case(('replay',), True)
